@@ -638,7 +638,7 @@ class C10(E2Prop):
 
 class C11(E2Prop):
     id = 'C11'
-    rule = ('ping sequences (payloads 0, 2, 3, 124, 125 bytes; 1-4 pings, several per segment) interleaved with data and user pongs x all read/write/flush patterns up to length 5 (sampled in quick) x WouldBlock on any write or flush, both roles, unlimited buffer; automatic pong already buffered behind a blocked transport when the user writes a pong/text, then read-only or flush-only tails')
+    rule = ('ping sequences (payloads 0, 2, 3, 124, 125 bytes; 1-4 pings, several per segment) interleaved with data and user pongs x all read/write/flush patterns up to length 5 (sampled in quick) x WouldBlock on any write or flush, both roles, unlimited buffer; automatic pong already buffered behind a blocked transport when the user writes a pong/text, then read-only or flush-only tails; finite max_write_buffer_size with the pong parked behind a full buffer')
     level_text = 'pong pending-until-sent invariant, order/no-invention, sent by the next successful call, WouldBlock postpones (theorems over all histories)'
     level_note = 'Trusted: Coq kernel, Protocol.v, correspondence'
     def generate(self, tier, rng):
@@ -675,10 +675,32 @@ class C11(E2Prop):
                             for fl in ([], ['e:wb']):
                                 ops = ['r', 'r'] + mid + [tail_op] * 5
                                 out.append(ws.scase_line('u%d' % k, role, ops, ['d:' + ws.hx(pf)], ['e:wb'] * nblock + ['a:100000'] * 8, fl + ['ok'] * 10)); k += 1
+        # finite max_write_buffer_size: data stuck behind a blocked transport fills the buffer, the pong of a ping read meanwhile does
+        # not fit and stays parked; the transport recovers and the user only reads (or only flushes): the pong must still go out
+        for role in 'sc':
+            for dlen in (16, 40):
+                fsz = gen_e2.frame_size(role, dlen)
+                for ping in (b'', b'ab', b'p' * 30):
+                    pf = gen_e2.peer_frame(role, 9, ping)
+                    for mx in (fsz, fsz + 1, fsz + 3, max(fsz + 3, gen_e2.frame_size(role, len(ping)))):
+                        if mx < gen_e2.frame_size(role, len(ping)):      # precondition of the property: the largest single frame fits
+                            mx = gen_e2.frame_size(role, len(ping))
+                        for nblock in (2, 3, 4):
+                            for tail_op in ('r', 'f'):
+                                ops = ['wb:' + ws.hx(bytes(range(dlen))), 'r', 'r'] + [tail_op] * 5
+                                out.append(ws.scase_line('q%d' % k, role, ops, ['d:' + ws.hx(pf)], ['e:wb'] * nblock + ['a:100000'] * 8, [], max_=mx)); k += 1
         return reid(self.corpus() + out)
     def monitor(self, case_line, trace, mline):
         case, ots = self.parse(case_line, trace)
-        return monitors.mon_c11(case, ots) or monitors.mon_c11_sent(case, ots)
+        v = monitors.mon_c11(case, ots) or monitors.mon_c11_sent(case, ots)
+        if v or case.max is None:
+            return v
+        tail = 0
+        for o in reversed(case.ops):
+            if o == case.ops[-1] and o in ('f', 'r'): tail += 1
+            else: break
+        w = monitors.mon_c13(case, ots, tail if tail >= 3 else 0)
+        return w if w and w.startswith('pong-lost') else None
 
 class C12(E2Prop):
     id = 'C12'
